@@ -250,6 +250,9 @@ def check_C05(ctx, rep):
 
 
 def check_C06(ctx, rep):
+    small_models2.check_regexp_to_nfa(ctx, rep, ctx.prog.func('regexp_algorithms.regexp_to_nfa'))
+    small_models2.check_dfa_to_regexp(ctx, rep, ctx.prog.func('regexp_algorithms.dfa_to_regexp'))
+    rep.clauses_decided.append('regexp_to_nfa returns a valid NFA with exactly the denoted words up to length 3 on 35 model expressions (M26), dfa_to_regexp an expression with exactly the accepted words up to length 4 (3) on thirteen model DFAs, two with three parallel symbols, under two elimination orders (M27); finite models')
     for fn0, op0 in (('nfa_union', 'union'), ('nfa_concatenation', 'concat'), ('nfa_repetition', 'star')):
         small_models2.check_nfa_operation(ctx, rep, ctx.prog.func('nfa_algorithms.' + fn0), op0)
     rep.clauses_decided.append('nfa_union / nfa_concatenation / nfa_repetition return a valid NFA with exactly the words up to length 4 of the union / concatenation / iteration on model NFAs with several final states that have different ways on, a final initial state, colliding state names and different epsilon symbols; operands untouched (M17, finite model)')
